@@ -240,4 +240,25 @@ def sequentialize (m : SModel) : Except Err (List Nat) × SModel :=
     | (.ok (), m') => (.ok order, m')
     | (.error e, m') => (.error e, m')
 
+/-! ### histories of operations on one Sequential object -/
+
+/-- the calls that touch the equation order of one and the same `Sequential` object -/
+inductive SOp where
+  /-- `m.reorder_equations(p)` (state unchanged when it raises) -/
+  | reorder (p : List Nat)
+  /-- `m.sequentialize()` -/
+  | sequentialize
+  /-- `m = m.copy()`: the copy carries the same equations in the same order -/
+  | copy
+  deriving DecidableEq, Repr, Inhabited
+
+/-- the state after one call; the incidence matrix of the next call is recomputed from this state
+(`collect_names` + `finalize_explanatories` after every re-ordering) -/
+def applyOp (m : SModel) : SOp → SModel
+  | .reorder p => (reorderEquations m p).2
+  | .sequentialize => (sequentialize m).2
+  | .copy => m
+
+def runOps (m : SModel) (ops : List SOp) : SModel := ops.foldl applyOp m
+
 end IrisVerif.Blazer
